@@ -3,13 +3,14 @@
 * conversion of DECODED parameter definitions (the objects decode_*_template returns) to the
   wire form of the Coq record `pdef` (coq/theories/JobParams.v);
 * the numeral domain of coq/theories/Numerals.v and its differential test against Python's
-  own int() / decimal.Decimal();
+  own int() / decimal.Decimal() (decimal digits of every script included);
 * value pools.
 """
 from __future__ import annotations
 
 import json
 import sys
+import unicodedata
 from decimal import Decimal, InvalidOperation
 from pathlib import Path
 from os.path import normpath
@@ -116,14 +117,34 @@ INT_SPACE = [9, 10, 11, 12, 13, 32] + UNI_SPACE
 DEC_SPACE = INT_SPACE + [28, 29, 30, 31]
 
 
+# Decimal digits of every script: what int() / Decimal() read (str.isdecimal(), category Nd), and what Numerals.v reads
+# through Generated.unicode_zero_digits (tools/regen.py emits that table from the same interpreter tables and checks that
+# the digits come in blocks of ten consecutive code points).  DIGIT_ZEROS[0] == 48.
+DIGIT_ZEROS = [c for c in range(0x110000) if chr(c).isdecimal() and unicodedata.decimal(chr(c)) == 0]
+# module-level str on purpose: harnesses that ship a class table build it from the pools of this module (c10full._pool_chars)
+UNI_DIGITS = "".join(chr(z + k) for z in DIGIT_ZEROS[1:] for k in range(10))
+# scripts the value generators favour, spelled literally (harnesses that build their class table from the non-ASCII
+# characters of this source text, like c06full, get them for free): Arabic-Indic, Extended Arabic-Indic, Devanagari,
+# Bengali, Thai, Tibetan, Myanmar, Khmer, Mongolian, fullwidth, Osmanya, mathematical bold / double-struck / monospace,
+# Adlam, segmented
+COMMON_DIGITS = ["٠١٢٣٤٥٦٧٨٩", "۰۱۲۳۴۵۶۷۸۹", "०१२३४५६७८९", "০১২৩৪৫৬৭৮৯", "๐๑๒๓๔๕๖๗๘๙", "༠༡༢༣༤༥༦༧༨༩", "၀၁၂၃၄၅၆၇၈၉", "០១២៣៤៥៦៧៨៩",
+                 "᠐᠑᠒᠓᠔᠕᠖᠗᠘᠙", "０１２３４５６７８９", "𐒠𐒡𐒢𐒣𐒤𐒥𐒦𐒧𐒨𐒩", "𝟎𝟏𝟐𝟑𝟒𝟓𝟔𝟕𝟖𝟗", "𝟘𝟙𝟚𝟛𝟜𝟝𝟞𝟟𝟠𝟡", "𝟶𝟷𝟸𝟹𝟺𝟻𝟼𝟽𝟾𝟿", "𞥐𞥑𞥒𞥓𞥔𞥕𞥖𞥗𞥘𞥙", "🯰🯱🯲🯳🯴🯵🯶🯷🯸🯹"]
+COMMON_DIGITS = [d for d in COMMON_DIGITS if len(d) == 10 and ord(d[0]) in DIGIT_ZEROS and [ord(c) - ord(d[0]) for c in d] == list(range(10))]
+ASCII_DIGITS = "0123456789"
+ALL_DIGIT_BLOCKS = ["".join(chr(z + k) for k in range(10)) for z in DIGIT_ZEROS]
+# the code points just below and just above every block that are NOT decimal digits (the boundaries of the table) ...
+DIGIT_NEIGHBOURS = "".join(sorted({chr(c) for z in DIGIT_ZEROS[1:] for c in (z - 1, z + 10)
+                                   if not chr(c).isdecimal() and not 0xD800 <= c <= 0xDFFF}))
+# ... and characters that are digits for str.isdigit() / numeric for unicodedata.numeric() but not DECIMAL digits, and the
+# non-ASCII spellings of sign, point, exponent letter, underscore: int() / Decimal() reject them all
+NOT_DECIMAL = ["³", "¹", "①", "⑨", "፩", "፱", "一", "〇", "௰", "𐄇", "𑁒", "٬", "．", "＋", "－", "ｅ", "Ｅ", "＿"]
+
+
 def in_numeral_domain(s: str, max_exp_digits=9) -> bool:
-    """the domain claimed in Numerals.v: no non-ASCII decimal digit, < 4300 digits, bounded
-    exponent text"""
+    """the domain claimed in Numerals.v: < 4300 digits, bounded exponent text (decimal digits of every script are IN
+    the domain: the model reads them as Python does)"""
     if len(s) > 4000:
         return False
-    for ch in s:
-        if ord(ch) > 127 and ch.isdecimal():
-            return False
     t = s.replace("_", "")
     for mark in ("e", "E"):
         if mark in t:
@@ -179,14 +200,31 @@ def model_dec(reply):
 
 
 WS_POOL = [chr(c) for c in DEC_SPACE] + [" ", " ", "\t", "\n"]
-JUNK = list("abcxyzEe+-._ ,/") + ["\x00", "\x7f", "é", "²", "−", "½", "Ⅷ", "٫", "0x", "0b", "0o", "j", "L", "%"]
+JUNK = list("abcxyzEe+-._ ,/") + ["\x00", "\x7f", "é", "²", "−", "½", "Ⅷ", "٫", "0x", "0b", "0o", "j", "L", "%"] + NOT_DECIMAL
+
+
+def rand_digit_source(rng):
+    """-> a function drawing one digit character.  70%: ASCII only; otherwise one other script, ASCII mixed with one
+    other script, or every digit from a script of its own (favoured scripts 60%, any block of the table 40%)"""
+    r = rng.random()
+    if r < 0.70:
+        return lambda: rng.choice(ASCII_DIGITS)
+    pick_block = lambda: rng.choice(COMMON_DIGITS) if rng.random() < 0.6 else rng.choice(ALL_DIGIT_BLOCKS)  # noqa: E731
+    if r < 0.82:
+        b = pick_block()
+        return lambda: rng.choice(b)
+    if r < 0.93:
+        b = pick_block()
+        return lambda: rng.choice(b if rng.random() < 0.5 else ASCII_DIGITS)
+    return lambda: rng.choice(pick_block())
 
 
 def rand_digits(rng, lo=1, hi=6):
     n = rng.randint(lo, hi)
     if rng.random() < 0.03:
         n = rng.randint(30, 300)
-    return "".join(rng.choice("0123456789") for _ in range(n))
+    draw = rand_digit_source(rng)
+    return "".join(draw() for _ in range(n))
 
 
 def rand_group(rng):
@@ -226,11 +264,12 @@ def rand_numeral(rng):
             w = "".join(c.upper() if rng.random() < 0.5 else c.lower() for c in w)
         body = w + (rand_digits(rng, 1, 4) if rng.random() < 0.35 else "") + (rng.choice(["x", ".", "e1", " 1", "_"]) if rng.random() < 0.1 else "")
     elif k < 0.85:
-        body = "".join(rng.choice(JUNK + list("0123456789")) for _ in range(rng.randint(0, 5)))
+        pool = JUNK + list(ASCII_DIGITS) + list(rng.choice(COMMON_DIGITS)) + ([rng.choice(DIGIT_NEIGHBOURS), rng.choice(UNI_DIGITS)] if rng.random() < 0.5 else [])
+        body = "".join(rng.choice(pool) for _ in range(rng.randint(0, 5)))
     else:
         body = rand_digits(rng, 1, 3)
         i = rng.randint(0, len(body))
-        body = body[:i] + rng.choice(JUNK + WS_POOL) + body[i:]
+        body = body[:i] + (rng.choice(DIGIT_NEIGHBOURS) if rng.random() < 0.15 else rng.choice(JUNK + WS_POOL)) + body[i:]
     pre = "".join(rng.choice(WS_POOL) for _ in range(rng.choice([0, 0, 0, 1, 1, 2])))
     post = "".join(rng.choice(WS_POOL) for _ in range(rng.choice([0, 0, 0, 1, 1, 2])))
     s = pre + sign + body + post
@@ -247,7 +286,14 @@ NUMERAL_CORPUS = [
     "- 1", "−1", "²", "1²", "1_e_5", "N_aN", "0x1", "\t\n\x0b\x0c\r 7", "\x1c7", "7\x1c", "\x1c 7 \x1f", "1_000_000", "1.0_0", "1._5",
     "_.5", "1e1_0", "-_1", "+_1", "9" * 100, "-" + "9" * 300, "0." + "0" * 80 + "1", "1" + "0" * 60 + ".5", "nan_", "inf_", "_inf",
     "+nan", "-NaN", "+sNaN5", "infinity1", "inf1", "nan 1", "1e 5", "1 e5", "1e5 ", " 1e5", " 1 ", " -7 ",
-]
+    # decimal digits of other scripts (the facts F1..F7 listed in Numerals.v)
+    "１２", "٣", "1٢", "𝟎𝟗", "١.٥", "0０.０0", "①", "²", "一", "፩", "１_２", "1_٢", "１__２", "_１", "１_", "1_._5", "nan_１",
+    "-٣", "+１", "＋1", "－1", "−1", "1E＋1", "\u2003１２\u2003", "　1　", "\x1c１２", "１２\x1f", "\x1c１\x1f", "１　２", "１ １", ".٥", "٥.",
+    "1e１", "1e-１", "１E-٣", "١e١_٠", "nan１", "sNaN٠٠٧", "inf１", "１．５", "1٫5", "1ｅ1", "ｉｎｆ", "ＮaN", "０x１", "0b１", "٣" * 300,
+    "-" + "𝟡" * 120 + ".𝟘", "٠٠٧", "٣_٣_٣", "- ٣", "٣-", "+-٣", "１é", "é１", "１\x00", "\x00１", "𞥐", "🯰🯱", "１e１.１", "１.２.３",
+    "\U0001d7cd1", "1\U0001d800", "/٠", "٠:", "９：", "／０", "1e٣٣٣", "1e-٣٣٣", "٣e999999999",
+] + [b[0] + b[9] + "_" + b[5] for b in ALL_DIGIT_BLOCKS] + [b[3] + "." + b[7] + "e" + b[1] for b in ALL_DIGIT_BLOCKS] \
+  + [chr(ord(b[0]) - 1) for b in ALL_DIGIT_BLOCKS] + [chr(ord(b[9]) + 1) for b in ALL_DIGIT_BLOCKS]
 
 
 # ---------------------------------------------------------------- PATH strings (restricted; C11 owns the rest)
